@@ -278,6 +278,17 @@ fn main() {
     let mut fam = planar_family(if th { 4 } else { 3 });
     let spec: Vec<(usize, usize)> = if th { vec![(2, 7), (3, 6), (4, 5)] } else { vec![(2, 6), (3, 4), (4, 3)] };
     fam.extend(braid_family(&spec));
+    // the repository's table: every knot and link with <= 8 (thorough 10) crossings and its mirror,
+    // each twice (the library's elimination order is hash-seeded: a defect that depends on which
+    // pivot is taken shows in some runs only)
+    let table = table_family(if th { 10 } else { 8 }, true);
+    run.add("table_entries", table.len() as u64);
+    for (name, d) in table {
+        for rep in 0..2 {
+            fam.push((format!("{name}#{rep}"), d.clone()));
+            fam.push((format!("{name}:mirror#{rep}"), d.mirror()));
+        }
+    }
     run.add("diagrams", fam.len() as u64);
     run.par_for(fam.len(), |i| {
         if run.over_budget_frac(0.6) {
@@ -297,7 +308,7 @@ fn main() {
     let coverage = json!({
         "evaluations": run.get("evaluations"),
         "distinct_nontrivial": run.get("diagrams") + run.get("seam_complexes"),
-        "rule": "link level: all planar diagrams with <= 3 (thorough 4) crossings + braid closures x {i64,i128,BigInt,Ratio<i64>,FF2,FF<3>} x two routes x reduced/unreduced; seam level: all two-term bigraded complexes C^0 -> C^1 made of two q-blocks with <= 3 generators per side in total and entries from {0,1,2,3,4,6}, pushed through the real into_bigraded code of both routes (hook H5) and compared with the per-bidegree Smith invariants",
+        "rule": "link level: all planar diagrams with <= 3 (thorough 4) crossings + braid closures + every table knot/link with <= 8 (thorough 10) crossings and its mirror (twice each) x {i64,i128,BigInt,Ratio<i64>,FF2,FF<3>} x two routes x reduced/unreduced; seam level: all two-term bigraded complexes C^0 -> C^1 made of two q-blocks with <= 3 generators per side in total and entries from {0,1,2,3,4,6}, pushed through the real into_bigraded code of both routes (hook H5) and compared with the per-bidegree Smith invariants",
         "diagrams": run.get("diagrams"),
         "seam_complexes": run.get("seam_complexes"),
         "exhaustive": true,
